@@ -555,6 +555,21 @@ Definition mb_update (s : mb_state) (t : Z) (c : C) : mb_state :=
     {| tj_cfg := cfg; tj_obs := if mem_Z t (tj_obs tj) then tj_obs tj else tj_obs tj ++ [t];
        tj_failed := tj_failed tj; tj_pending := remZ t (tj_pending tj) |} (mb_rs s).
 
+(* _update with a NaN / infinite metric value: rejected as data; the trial (if registered) is marked as
+   failed, pending evaluations and observations are untouched.
+   (Before the fix commit for finding F-C06-3 nothing happened at all; for the FIFO searcher the
+   exclusion list is the same either way, because the trial is still pending.) *)
+Definition mb_update_nonfinite (s : mb_state) (t : Z) : mb_state :=
+  let tj := mb_tj s in
+  match lookupZ t (tj_cfg tj) with
+  | None => s
+  | Some _ =>
+      mb_with s (mb_p2e s)
+        {| tj_cfg := tj_cfg tj; tj_obs := tj_obs tj;
+           tj_failed := if mem_Z t (tj_failed tj) then tj_failed tj else tj_failed tj ++ [t];
+           tj_pending := tj_pending tj |} (mb_rs s)
+  end.
+
 (* evaluation_failed: drop_pending_evaluation; mark_trial_failed *)
 Definition mb_evaluation_failed (s : mb_state) (t : Z) : mb_state :=
   let tj := mb_tj s in
